@@ -229,6 +229,9 @@ func childRecover(spec *childSpec) {
 	lab.TmpDir = spec.Tmp
 	lab.Hashes = hashes
 	lab.M = m0
+	// After the crash the chunks of a repeated restore arrive in the opposite order (every order is
+	// legitimate), except for every third hit index, which keeps the order of the first attempt.
+	lab.ReverseChunks = spec.Hit%3 != 2
 	isMP := kind == ndblab.KMPStart || kind == ndblab.KMPChunk || kind == ndblab.KMPAbort || kind == ndblab.KMPFinal
 
 	// --- (1) every version finalized before the operation is intact; metadata is M0's or the target's.
